@@ -22,8 +22,8 @@ META = {
 }
 
 H = lambda b: b.hex() if b else "-"
-NCASE = {"quick": dict(strings=700, words=900, sedin=500, globs=1200, names=900, grep=2600, diff=1000, pager=120),
-         "thorough": dict(strings=5000, words=8000, sedin=4000, globs=10000, names=8000, grep=24000, diff=9000, pager=800)}
+NCASE = {"quick": dict(strings=500, words=700, sedin=400, globs=900, names=700, grep=1800, diff=700, pager=100),
+         "thorough": dict(strings=4000, words=6000, sedin=3000, globs=8000, names=6000, grep=17000, diff=6500, pager=600)}
 
 BASE_PATH = "/usr/bin:/bin"
 
@@ -436,7 +436,7 @@ def make_file(rng, world, tame=False):
         plain = rnd_content(rng, world)
         blob = None
     base = rng.choice((b"a", b"f1", b"data", b"x.tar", b"b.c")) if tame else as_filename(hostile_string(rng))
-    name = as_filename(base + SUFFIX[fmt])
+    name = as_filename(base)[:150] + SUFFIX[fmt]
     return {"name": name, "fmt": fmt, "plain": plain, "blob": blob, "state": "ok"}
 
 
@@ -476,6 +476,7 @@ def gen_grep_case(rng, world, idx, focus=None):
     if rng.random() < 0.1:
         opts += [b"-m", b"1"] if rng.random() < 0.5 else [b"-m1"]
     # combine some single-letter options into one word (exercises the option splitter)
+    case["flag_v"] = b"-v" in opts
     case["flag_h"] = b"-h" in opts
     case["flag_H"] = b"-H" in opts
     singles = [o for o in opts if len(o) == 2 and o[1:2] in b"invwxoshHlLcq"]
@@ -549,7 +550,10 @@ def gen_grep_case(rng, world, idx, focus=None):
         f = rng.choice(files)
         f["state"] = rng.choice(("missing", "corrupt")) if f["fmt"] in ("xz", "lzma", "txz", "tlz") else "missing"
         case["status_only"] = (f["state"] == "corrupt") or bool(mode in (b"-c", b"-L", b"-q")) or b"-s" in opts or b"-v" in opts
-        if b"-q" in opts or mode == b"-q":
+        # grep may stop reading early (-q, -l/-L use -q, -m, -v with a pattern that matches every line): a truncated file's
+        # decompressor then dies of SIGPIPE (exempted by design) or reports its error first - both are legitimate
+        early = mode in (b"-l", b"-L", b"-q") or any(a.startswith(b"-m") for a in args) or case["flag_v"]
+        if mode == b"-q" or (f["state"] == "corrupt" and early):
             case["skip_status"] = True
     # documented differences that the comparison must respect
     if ctxopt and (nfiles > 1 or (nfiles == 1 and case["flag_H"])):
@@ -666,7 +670,7 @@ def gen_diff_case(rng, world, idx):
             plain, blob = (content if content is not None else rnd_content(rng, world)), None
         base = rng.choice((b"a", b"left", b"x.tar")) if tame else as_filename(hostile_string(rng))
         suf = rng.choice(DIFF_SUF[fmt])
-        return {"name": as_filename(base + suf), "fmt": fmt, "plain": plain, "blob": blob, "state": "ok", "suf": suf, "base": base}
+        return {"name": as_filename(base)[:150] + suf, "fmt": fmt, "plain": plain, "blob": blob, "state": "ok", "suf": suf, "base": base}
     a = mk(rng.choice(fmts))
     same = rng.random() < 0.4
     case = {"kind": "diff", "idx": idx, "prog": prog, "shell": shell, "mode": mode, "extra_files": []}
